@@ -98,12 +98,12 @@ Qed.
 Theorem tg_creds_match_spec : forall c s,
   tg_creds_match c s = true <->
   exists h sk i ck,
-    tg_server_sni s (cc_sni c) = Some (h, sk) /\
+    tg_server_sni s (tg_sni_sent (cc_sni c)) = Some (h, sk) /\
     tg_client_choice c (tg_hint_seen h) = Some (i, ck) /\
     tg_server_key s sk i = Some ck.
 Proof.
   intros c s. unfold tg_creds_match. split.
-  - destruct (tg_server_sni s (cc_sni c)) as [[h sk]|] eqn:A; [|discriminate].
+  - destruct (tg_server_sni s (tg_sni_sent (cc_sni c))) as [[h sk]|] eqn:A; [|discriminate].
     destruct (tg_client_choice c (tg_hint_seen h)) as [[i ck]|] eqn:B; [|discriminate].
     destruct (tg_server_key s sk i) as [k|] eqn:K; [|discriminate].
     intros E. apply tg_beqb_eq in E. subst k. exists h, sk, i, ck. repeat split; auto.
@@ -138,6 +138,75 @@ Theorem tg_creds_hint_rejected : forall c s t,
 Proof.
   intros c s t A B C. unfold tg_creds_match, tg_server_sni, tg_client_choice.
   rewrite A, B, C. reflexivity.
+Qed.
+
+(* ---- SNI: the credentials in force are those configured for exactly the name the client sent
+   (up to ASCII case), whatever was cached by earlier handshakes on the same context *)
+Lemma tg_ci_eqb_refl : forall a, tg_ci_eqb a a = true.
+Proof. induction a; simpl; auto. rewrite Z.eqb_refl. exact IHa. Qed.
+Lemma tg_ci_eqb_sym : forall a b, tg_ci_eqb a b = tg_ci_eqb b a.
+Proof.
+  induction a as [|x a IH]; destruct b as [|y b]; simpl; auto.
+  rewrite Z.eqb_sym, IH. reflexivity.
+Qed.
+Lemma tg_ci_eqb_trans : forall a b c, tg_ci_eqb a b = true -> tg_ci_eqb b c = true -> tg_ci_eqb a c = true.
+Proof.
+  induction a as [|x a IH]; destruct b as [|y b]; destruct c as [|z c]; simpl; intros H1 H2;
+    try discriminate; auto.
+  apply andb_true_iff in H1. destruct H1 as [A1 B1]. apply andb_true_iff in H2. destruct H2 as [A2 B2].
+  apply Z.eqb_eq in A1. apply Z.eqb_eq in A2. rewrite A1, A2, Z.eqb_refl. simpl. eapply IH; eauto.
+Qed.
+
+Lemma tg_lookup_ci_congr : forall {A} (t : list (list Z * A)) a b,
+  tg_ci_eqb a b = true -> tg_lookup_ci a t = tg_lookup_ci b t.
+Proof.
+  induction t as [|[k v] t IH]; intros a b E; simpl; auto.
+  destruct (tg_ci_eqb a k) eqn:X; destruct (tg_ci_eqb b k) eqn:Y; auto.
+  - rewrite tg_ci_eqb_sym in E. rewrite (tg_ci_eqb_trans _ _ _ E X) in Y. discriminate.
+  - rewrite (tg_ci_eqb_trans _ _ _ E Y) in X. discriminate.
+Qed.
+
+(* a cache whose entries all came from the table *)
+Definition tg_cache_ok {A} (cache table : list (list Z * A)) : Prop :=
+  forall n v, tg_lookup_ci n cache = Some v -> tg_lookup_ci n table = Some v.
+
+Lemma tg_lookup_ci_app : forall {A} (a b : list (list Z * A)) n,
+  tg_lookup_ci n (a ++ b) = match tg_lookup_ci n a with Some v => Some v | None => tg_lookup_ci n b end.
+Proof.
+  induction a as [|[k v] a IH]; intros b n; simpl; auto. destruct (tg_ci_eqb n k); auto.
+Qed.
+
+(* for every history of handshakes the cached lookup answers what the table says, and the cache
+   stays made of table entries: names that are prefixes / extensions / case variants of cached
+   names are not confused *)
+Theorem tg_sni_cache_transparent : forall {A} (cache table : list (list Z * A)) name,
+  tg_cache_ok cache table ->
+  fst (tg_sni_cached cache table name) = tg_lookup_ci name table /\
+  tg_cache_ok (snd (tg_sni_cached cache table name)) table.
+Proof.
+  intros A cache table name OK. unfold tg_sni_cached.
+  destruct (tg_lookup_ci name cache) as [v|] eqn:C.
+  - simpl. split; [symmetry; apply OK; exact C | exact OK].
+  - destruct (tg_lookup_ci name table) as [v|] eqn:T; simpl; split; auto.
+    intros n w H. rewrite tg_lookup_ci_app in H.
+    destruct (tg_lookup_ci n cache) as [u|] eqn:Cn.
+    + inversion H; subst. apply OK. exact Cn.
+    + simpl in H. destruct (tg_ci_eqb n name) eqn:E; [|discriminate].
+      inversion H; subst. rewrite (tg_lookup_ci_congr table n name E). exact T.
+Qed.
+
+(* with an SNI table (and no identity / hint callbacks): a match means the client's key is the key
+   configured for exactly the name it sent *)
+Theorem tg_creds_sni_exact : forall c s t,
+  sc_snis s = Some t -> sc_ids s = None -> cc_ih c = None ->
+  tg_creds_match c s = true ->
+  exists h k, tg_lookup_ci (match tg_sni_sent (cc_sni c) with Some n => n | None => [] end) t = Some (h, k) /\
+              cc_key c = k.
+Proof.
+  intros c s t A B C M. unfold tg_creds_match, tg_server_sni, tg_client_choice, tg_server_key in M.
+  rewrite A, B, C in M.
+  destruct (tg_lookup_ci _ t) as [[h k]|] eqn:L; [|discriminate].
+  apply tg_beqb_eq in M. exists h, k. auto.
 Qed.
 
 (* ------------------------------------------------------------------ concrete runs *)
